@@ -9,18 +9,18 @@ CHECKS = {
  "C01": ("exploration",
          "bounded-exhaustive input enumeration against an ISA reference model + differential pair enumeration",
          "DESIGN.md §4 C01",
-         "Every (mnemonic x syntactic form x operand boundary class x radix x case), the branch distance sweep -140..140 x 3 shapes x 2 directions x 6 anchors and again inside segments whose run address differs from their storage address, and every ordered pair of 170 statement forms x 4 separators are executed on the real parser+codegen; exhaustive for that finite space, which contains every shortcut visible in the code (255/256, -128/127, target $0000, optional operands).",
+         "Every (mnemonic x syntactic form x operand boundary class x radix x case), the branch distance sweep -140..140 x 3 shapes x 2 directions x 6 anchors and again inside segments whose run address differs from their storage address, every ordered pair of 170 statement forms x 4 separators, and 12 operand shapes that are no form of the instruction set (two register suffixes, a suffix on an immediate) x 56 mnemonics are executed on the real parser+codegen; exhaustive for that finite space, which contains every shortcut visible in the code (255/256, -128/127, target $0000, optional operands).",
          "Operand values are boundary classes plus seed-chosen representatives; ISA model generated from the opcode bit structure is trusted; values above 65535 / negative values are outside the statement."),
  "C05": ("exploration",
          "bounded-exhaustive input enumeration (all single-character edits of a production-covering corpus, all short token strings, all line splices) with a round-trip oracle on the real parser",
          "DESIGN.md §4 C05",
-         "Every single-character deletion/insertion/replacement (104 characters) of a corpus holding one rendering of every grammar production and of the example sources, all token strings up to length 4 (quick) / 5 (thorough) over 26 tokens, and all prefix+suffix splices of the examples are parsed by the real parser; whenever no diagnostic is reported the re-rendered tokens must equal the input (modulo letter case and CRLF). Exhaustive for that space, which contains the stray `)` / lone CR / control / non-ASCII cases the end-of-file rule mishandled.",
-         "Not all byte strings: single edits of a fixed corpus and short token strings (small-scope hypothesis). Comparison modulo Unicode letter case and CRLF on both sides."),
+         "Every single-character deletion/insertion/replacement (104 characters) of a corpus holding one rendering of every grammar production and of the example sources, all token strings up to length 4 (quick) / 5 (thorough) over 26 tokens, and all prefix+suffix splices of the examples are parsed by the real parser; whenever no diagnostic is reported the re-rendered tokens must equal the input (modulo the letter case of code and CRLF; the texts of comments exactly). Exhaustive for that space, which contains the stray `)` / lone CR / control / non-ASCII cases the end-of-file rule mishandled.",
+         "Not all byte strings: single edits of a fixed corpus and short token strings (small-scope hypothesis). Comparison modulo Unicode letter case (outside comments) and CRLF on both sides."),
  "C08": ("exploration",
          "deviation-bounded exhaustive enumeration of trivia/case variants against the base program's meaning (differential on the real assembler)",
          "DESIGN.md §4 C08",
-         "For 39 base programs covering every statement kind (plus 8 with diagnostics) every single deviation - 8 single-line trivia (blank, tab, block comments incl. empty, nested, doc-style and code-like) at every ws slot, 13 at every mws slot (those plus line breaks, empty and code-like line comments), two statements joined onto one line where the line break is not the grammar's separator, case flip of every mnemonic/directive/register/hex literal/keyword, whole-file CRLF and leading/trailing trivia - and, in thorough, every pair of deviations at most 6 terminals apart is assembled and its bytes, symbol table and normalised diagnostics compared with the base. Exhaustive for deviation bound 1 (quick) / 2 (thorough).",
-         "Trivia slots come from the harness grammar (read off the parser); literals and strings are atomic; the slot after a prefix minus is excluded because `- x` is the scope identifier `-` in mos's grammar (see DESIGN.md false alarms). Joining lines is not tried after an operand-less instruction or before `*=`: there the line break is a separator, not trivia."),
+         "For 39 base programs covering every statement kind (plus 8 with diagnostics) every single deviation - 8 single-line trivia (blank, tab, block comments incl. empty, nested, doc-style and code-like) at every ws slot, 13 at every mws slot (those plus line breaks, empty and code-like line comments), two statements joined onto one line where the line break is not the grammar's separator, a comment in place of the blank or line break between two tokens, case flip of every mnemonic/directive/register/hex literal/keyword, whole-file CRLF and leading/trailing trivia - and, in thorough, every pair of deviations at most 6 terminals apart is assembled and its bytes, symbol table and normalised diagnostics compared with the base. Exhaustive for deviation bound 1 (quick) / 2 (thorough).",
+         "Trivia slots come from the harness grammar (read off the parser); strings are atomic, a number is its radix prefix + digits with a trivia slot between them; the slot after a prefix minus is excluded because `- x` is the scope identifier `-` in mos's grammar (see DESIGN.md false alarms). Joining lines is not tried after an operand-less instruction or before `*=`: there the line break is a separator, not trivia."),
  "C02": ("exploration",
          "bounded-exhaustive program enumeration with a fixed-point certificate check of the implementation's own output",
          "DESIGN.md §4 C02",
@@ -29,7 +29,7 @@ CHECKS = {
  "C03": ("exploration",
          "bounded-exhaustive enumeration of expression trees against a reference evaluator (batched, failing batches bisected)",
          "DESIGN.md §4 C03",
-         "All expression trees with up to 2 binary operators over 24 leaves (3 over 4 leaves in thorough) x 16 operators, with unary/parenthesis deviations, rendered with parentheses wherever the documentation fixes no precedence, are assembled through .dword/.byte/.word/.text and compared with an independent checked-i64 evaluator; trees outside the documented domain (overflow, zero divisor, shift count outside 0..31) are counted, not run.",
+         "All expression trees with up to 2 binary operators over 24 leaves (3 over 4 leaves in thorough) x 16 operators, with unary/parenthesis deviations (incl. the one spelling of two prefix operators without parentheses, `!-x`), rendered with parentheses wherever the documentation fixes no precedence, are assembled through .dword/.byte/.word/.text and compared with an independent checked-i64 evaluator; trees outside the documented domain (overflow, zero divisor, shift count outside 0..31) are counted, not run.",
          "Reference evaluator and PETSCII/screen-code expectations for a-z 0-9 are trusted; only documented precedence is relied on."),
  "C06": ("exploration",
          "bounded-exhaustive input enumeration through the whole pipeline with deterministic non-termination detection (pass-state digests + fuel via hook H1), abort isolation in child processes",
@@ -49,7 +49,7 @@ CHECKS = {
  "C12": ("exploration",
          "deviation-bounded exhaustive enumeration of commented programs x formatter configurations with token/meaning/comment-sequence oracles",
          "DESIGN.md §4 C12",
-         "Every base program with one comment at every trivia slot - or the statement joined onto the previous statement's line, with and without a block comment in between - (pairs of slots in thorough) x default and every one-factor formatter configuration (all 960 in thorough) is formatted by the real formatter: the result must parse, keep the token string, assemble to the same bytes/symbols/diagnostics and contain the same comments in order; `mos format` on multi-file projects is checked through the real binary.",
+         "Every base program with one comment at every trivia slot - or the statement joined onto the previous statement's line, with and without a block comment in between - (pairs of slots in thorough) x default and every one-factor formatter configuration (all 960 in thorough) is formatted by the real formatter: the result must parse, keep the token string, assemble to the same bytes/symbols/diagnostics and contain the same comments in order; `mos format` on multi-file projects - also with every proper subset of the files formatted already - is checked through the real binary.",
          "Comment texts are fixed; own lexer for the token/comment clauses; known formatter defects are listed in KNOWN_FINDINGS.txt."),
  "C13": ("exploration",
          "deviation-bounded exhaustive enumeration of commented programs x formatter configurations, idempotence oracle",
@@ -59,12 +59,12 @@ CHECKS = {
  "C14": ("model_checking",
          "explicit-state breadth-first search over LSP event histories on the real server (fresh-server differential in every state, canonical state key), conformance replay against the real process",
          "DESIGN.md §4 C14",
-         "States are event histories (didOpen/didChange/didClose over 4 files - entry file, imported file, stray file, mos.toml - and a typing ladder of 14 texts, rename, codeLens, formatting, documentSymbol, semantic tokens, workspace/symbol) replayed on a fresh real LspServer running its real main loop; in every state a battery of 10 request types at token starts, line ends, beyond-end and inside-multi-byte positions must be answered, be well-formed and equal a fresh server's answers for the final buffers. The search runs once with an empty project directory and once with an erroneous imported file on disk. Thorough runs to closure of the canonical state set; quick to depth 3; states are merged only beyond depth 2.",
+         "States are event histories (didOpen/didChange/didClose over 4 files - entry file, imported file, stray file, mos.toml - and a typing ladder of 14 texts, rename, codeLens, formatting, documentSymbol, semantic tokens, workspace/symbol) replayed on a fresh real LspServer running its real main loop; in every state a battery of 10 request types at token starts, line ends, beyond-end and inside-multi-byte positions, and about a document that is not a file, must be answered, be well-formed and equal a fresh server's answers for the final buffers. The search runs once with an empty project directory and once with an erroneous imported file on disk. Thorough runs to closure of the canonical state set; quick to depth 3; states are merged only beyond depth 2.",
          "Canonical key = (buffers, digest of answers): sound because every didOpen/didChange/didClose rebuilds the server state from the buffers; a state that differs from the fresh server is reported, so merging loses nothing (state that only a later request can see is why nothing is merged up to depth 2; the barrier between events is a request that touches no analysis state). Text ladder is finite. stdio framing covered by the conformance replays only."),
  "C19": ("model_checking",
          "stateless preemption-bounded DFS over the interleavings of the real debugger threads under a controlled scheduler (hooked scheduling points), replayable schedules",
          "DESIGN.md §4 C19",
-         "The repository's own machine and poller threads and a harness session thread run under a baton-passing scheduler that owns every lock/atomic/channel/sleep point of the emulated-machine debug adapter. For every script over setBreakpoints/configurationDone/wait/pause/continue/next/stepIn/stepOut up to the length bound (continue and steps also while the machine runs freely), on a straight-line, a loop and a subroutine program (thorough: also nested subroutines), all schedules with at most 1 (quick) / 2-3 (thorough) preemptions are executed; in each the reported stop address and registers are compared with the CPU, the machine must stay halted after a reported stop, breakpoints must not be skipped and steps must follow the uninterrupted instruction sequence. Protocol-level DAP sessions on the real process (6 programs - one laid out in descending address order, nested subroutines, a subroutine called twice - x every breakpoint line x stepIn / next / stepOut / continue to every later visit of the line / stepIn to the end, stack trace and evaluate at every stop) bind the adapter-level result to what a client sees.",
+         "The repository's own machine and poller threads and a harness session thread run under a baton-passing scheduler that owns every lock/atomic/channel/sleep point of the emulated-machine debug adapter. For every script over setBreakpoints/configurationDone/wait/pause/continue/next/stepIn/stepOut up to the length bound (continue and steps also while the machine runs freely), on a straight-line, a loop and a subroutine program (thorough: also nested subroutines), all schedules with at most 1 (quick) / 2-3 (thorough) preemptions are executed; in each the reported stop address and registers are compared with the CPU, the machine must stay halted after a reported stop, breakpoints must not be skipped and steps must follow the uninterrupted instruction sequence. Protocol-level DAP sessions on the real process (12 programs - among them one laid out in descending address order, nested and recursive subroutines, a subroutine called twice, lines assembled several times by a loop and a macro, an rts used as a computed jump, code in two files with a breakpoint in each - x every visit of every breakpoint line x stepIn / next / stepOut, continue to every later visit of the line, stepIn to the end; stack trace and evaluate at every stop) bind the adapter-level result to what a client sees.",
          "Sequentially consistent interleavings at the hooked points; the harness calls the adapter methods the DAP handlers call (no TCP); recorded schedules are replayed and must reproduce the observations, a divergence is a machinery error."),
  "C17": ("exploration",
          "deviation-bounded exhaustive enumeration of buffers (trivia, whitespace, CRLF, non-ASCII deviations) with an edit-application oracle against the real formatter, on the real server",
@@ -79,7 +79,7 @@ CHECKS = {
  "C10": ("model_checking",
          "exhaustive enumeration of (project, hash seed) pairs on the real executable with owned seed nondeterminism (getrandom shim)",
          "DESIGN.md §4 C10",
-         "The seeds of every RandomState in the real `mos` process are chosen by the harness (LD_PRELOAD getrandom shim); every project of the enumerated space (statement sequences over 17 statements with repeated undefined names, macros, five import forms over four importable files of which two import further files, imports of two missing files; imported files clean / with a semantic error / each with a syntax error and missing imports of its own; listing and VICE symbols) is built under every seed 0..N-1 in a fresh process and directory, and stdout plus every output file must be byte-identical over all seeds. A canary shows how many HashSet orders the N seeds produce; a labelled sampled run without the shim is a tripwire only.",
+         "The seeds of every RandomState in the real `mos` process are chosen by the harness (LD_PRELOAD getrandom shim); every project of the enumerated space (statement sequences over 17 statements with repeated undefined names, macros, five import forms over four importable files of which two import further files, imports of two missing files; imported files clean / with a semantic error / each with a syntax error and missing imports of its own; files that share a stem in different directories, with another extension, or outside the entry directory; 2-3 banks whose filename options spell one file differently; listing and VICE symbols) is built under every seed 0..N-1 in a fresh process and directory, and stdout plus every output file must be byte-identical over all seeds. A canary shows how many HashSet orders the N seeds produce; a labelled sampled run without the shim is a tripwire only.",
          "Exhaustive over (project, seed < N), N = 8 quick / 32 thorough; the seed space itself is not enumerable. The shim owns libc getrandom/getentropy."),
  "C15": ("exploration",
          "bounded-exhaustive enumeration of a scope-shape program catalogue x every identifier occurrence x new names on the real server, apply-edit-and-reassemble oracle",
@@ -94,7 +94,7 @@ CHECKS = {
  "C20": ("model_checking",
          "exhaustive enumeration of client-visible shutdown histories on the real process + explicit-state exploration (spin) of a Promela model of the protocol with outcome conformance",
          "DESIGN.md §4 C20",
-         "All histories (6 session states - no debugger, attached idle, test launched but not started, running, paused, finished - x 11 orders of LSP shutdown/exit, DAP disconnect with and without arguments, a debugger attaching after shutdown / after exit / after the pipe was closed, closing stdin/TCP x gap patterns) are run twice against the real `mos lsp` process over stdio and TCP: exit status 0 within 5 s, debug port free afterwards, no panic. A Promela model of Main/DebugThread/Client/context mutex is explored exhaustively by spin (all interleavings, no invalid end state; polling loops modelled as blocking so that a livelock shows as a hang); every observed outcome must be in the model's outcome set for that history, and the model of the protocol before repair 8dc9ff0 must reach the hang (self-test).",
+         "All histories (7 session states - no debugger, attached idle, test launched but not started, the same with a pause already requested, running, paused, finished - x 11 orders of LSP shutdown/exit, DAP disconnect with and without arguments, a debugger attaching after shutdown / after exit / after the pipe was closed, closing stdin/TCP x gap patterns) are run twice against the real `mos lsp` process over stdio and TCP: exit status 0 within 5 s, debug port free afterwards, no panic. A Promela model of Main/DebugThread/Client/context mutex is explored exhaustively by spin (all interleavings, no invalid end state; polling loops modelled as blocking so that a livelock shows as a hang); every observed outcome must be in the model's outcome set for that history, and the model of the protocol before repair 8dc9ff0 must reach the hang (self-test).",
          "Timing inside the real process is a finite gap menu, not controlled; the hand-written model is bound to the code by outcome conformance only; 'promptly' = 5 s."),
  "C04": ("fault_enumeration",
          "exhaustive single-fault injection: fault classes x every statement slot of every base program (contexts incl. imported file), in-process location oracle + real-binary exit/stdout/target-directory oracle",
